@@ -123,7 +123,6 @@ def run_phase(root: str, phase: dict, trace=None, rng_seed: str = "") -> dict:  
     sim = fs_sim.Sim(chooser, root, knobs)
     os.environ["XDG_CACHE_HOME"] = os.path.join(root, "xdg")
     os.makedirs(os.path.join(root, "xdg"), exist_ok=True)
-    results: list[dict] = []
     verify = bool(phase.get("verify"))
 
     def classify(entry: dict, outcome) -> tuple[str, str]:
@@ -153,9 +152,9 @@ def run_phase(root: str, phase: dict, trace=None, rng_seed: str = "") -> dict:  
                 status, detail = classify(entry, outcome)
                 if status.startswith("raised:") and actor.injected_error and isinstance(outcome, OSError):
                     status = "injected-oserror"
-                results.append({"actor": actor.idx, "call": ci, "expr": entry["name"],
-                                "dir": call.get("dir", "shared"), "status": status,
-                                "detail": detail, "verify": verify})
+                sim.report({"actor": actor.idx, "call": ci, "expr": entry["name"],
+                            "dir": call.get("dir", "shared"), "status": status,
+                            "detail": detail, "verify": verify})
                 sim.seam("call-end", entry["name"])
                 actor.in_call = False
 
@@ -199,6 +198,9 @@ def run_phase(root: str, phase: dict, trace=None, rng_seed: str = "") -> dict:  
         sim.run()
     except fs_sim.StepCap as exc:
         step_cap = str(exc)
+    finally:
+        sim.shutdown()
+    results = sim.results
     # hit / miss / recompute-after-read paths, from the seam log
     open_calls: dict[int, dict] = {}
     for idx, kind, detail, _fault in sim.events:
@@ -239,4 +241,5 @@ def run_phase(root: str, phase: dict, trace=None, rng_seed: str = "") -> dict:  
         "tmp_litter": tmp_litter,
         "zero_len_pkl": zero_len,
         "seam_kinds": sorted({e[1] for e in sim.events}),
+        "mode": sim.mode,
     }
